@@ -946,8 +946,8 @@ class Translator:
                 if inner[0] == "un" and inner[1] == "!": return self.ex(inner[2], env, B)
                 dual = {"<": ">=", "<=": ">", ">": "<=", ">=": "<", "==": "!=", "!=": "=="}
                 if inner[0] == "bin" and inner[1] in dual:
-                    tys = {self.type_of(inner[2], env), self.type_of(inner[3], env)} - {"lit"}
-                    if len(tys) <= 1 and tys <= {"usize", "isize", "bool"} and (inner[1] in ("==", "!=") or "bool" not in tys):
+                    tys = self.discrete_operands(inner[2], inner[3], env)
+                    if tys is not None and (inner[1] in ("==", "!=") or "bool" not in tys):
                         return self.ex(("bin", dual[inner[1]], inner[2], inner[3]), env, B)
             a, ta = self.ex(e[2], env, B)
             if op == "-":
@@ -1139,6 +1139,14 @@ class Translator:
             return self.apply_fn(self.tb.METHODS[("index", ty)], [base, i], B)
         self.bad("indexing into a value of type %s" % (ty,))
 
+    def discrete_operands(self, a, b, env):
+        """the set of the (at most one) non-literal type of two operands when both are usize / isize / bool / integer literals
+        -- totally ordered types with decidable equality --, else None"""
+        ts = [self.type_of(a, env), self.type_of(b, env)]
+        if not all(isinstance(t, str) for t in ts): return None
+        tys = set(ts) - {"lit"}
+        return tys if len(tys) <= 1 and tys <= {"usize", "isize", "bool"} else None
+
     def canon_if(self, e, env):
         """an `if` WITH an else arm, negated condition:  if !c {X} else {Y}  ==>  if c {Y} else {X};  and on usize / isize / bool
         operands (total orders -- never on floating-point elements, where a NaN makes `a >= b` differ from `!(a < b)`)
@@ -1150,8 +1158,8 @@ class Translator:
             if cu[0] == "un" and cu[1] == "!":
                 c, th, el = cu[2], el, th; continue
             if cu[0] == "bin" and cu[1] in ("!=", ">=", ">"):
-                tys = {self.type_of(cu[2], env), self.type_of(cu[3], env)} - {"lit"}
-                if len(tys) <= 1 and tys <= {"usize", "isize", "bool"} and (cu[1] == "!=" or "bool" not in tys):
+                tys = self.discrete_operands(cu[2], cu[3], env)
+                if tys is not None and (cu[1] == "!=" or "bool" not in tys):
                     c, th, el = ("bin", {"!=": "==", ">=": "<", ">": "<="}[cu[1]], cu[2], cu[3]), el, th; continue
             break
         return ("if", c, th, el)
